@@ -55,3 +55,85 @@ place_user = Contract(
     properties=("C09",), min_obligations=2, no_replay=True,
 )
 CONTRACTS = [place_user, add_placement, footprint, alignment]
+
+# =================================================================================================
+# ExpressionLowerer._try_extract_const_value (coordinates of place()): an integer is returned exactly for
+# literal ints, constant nodes and arithmetic nodes over such values, and it is the S1 value of that tree
+# (0 and negative results included); everything else is "not constant" (None).
+# =================================================================================================
+from contracts import c11 as _c11  # noqa: E402
+from pyvc.ghost import ghost, isa  # noqa: E402
+from spec import arith32 as A  # noqa: E402
+
+EL = "dsl_compiler/src/lowering/expression_lowerer.py::ExpressionLowerer."
+_VREF = ty.TUnion((ty.Int, ty.TObj("SignalRef", only=("SignalRef", "BundleRef"))))
+_NODE = ty.TOpt(ty.TObj("IRNode", only=("IRConst", "IRArith", "IRDecider"), ftypes=(
+    ("value", ty.Int), ("left", _VREF), ("right", _VREF), ("op", ty.Str), ("source_ast", ty.TOpt(ty.TObj("BinaryOp", only=("BinaryOp",)))))))
+
+
+def cval(ref):
+    """ghost: the constant value of a reference (None = not a compile-time constant)"""
+    if isinstance(ref, SObj):
+        return ghost(ref, "cval", ty.TOpt(ty.Int))
+    return ref
+
+
+def _get_op(ex, a):
+    ref = ex.args_ns.value_ref
+    return ghost(ref, "node", _NODE)
+
+
+get_operation = Contract(qualname="dsl_compiler/src/ir/builder.py::IRBuilder.get_operation", params={"self": _OPQ, "node_id": _OPQ}, effect=_get_op, verify=False,
+                         note="dictionary lookup: the producer node of the reference")
+rec_call = Contract(qualname=EL + "_try_extract_const_value", params={"self": _OPQ, "value_ref": _OPQ}, effect=lambda ex, a: cval(a.value_ref), verify=False,
+                    note="recursive call by contract (induction over the finite IR tree)")
+
+
+def _i32o(v):
+    return True if v is None else A.i32(v)
+
+
+def _extract_post(a, res):
+    ref = a.value_ref
+    if not isinstance(ref, SObj):
+        return ops.eq(res, ref) if res is not None else False
+    if not isa(ref, "SignalRef"):
+        return res is None
+    node = ref._fields.get("@node")
+    if node is None:
+        return res is None
+    if isa(node, "IRConst"):
+        return False if res is None else res == node.value
+    if isa(node, "IRArith"):
+        l, r = cval(node.left), cval(node.right)
+        if l is None or r is None or node.source_ast is None:
+            return res is None
+        # both constant: the result is what the verified folder returns for (op, l, r): its contract gives the S1 value
+        tags = _c11.ALL_TAGS
+        cs = [Implies(node.op == t, _c11.fold_spec(t, l, r, res) if res is not None else False) for t in tags]
+        cs.append(Implies(And(*[node.op != t for t in tags]), res is None))
+        return And(*cs)
+    return res is None
+
+
+def _operands_i32(a):
+    ref = a.value_ref
+    if not isinstance(ref, SObj):
+        return A.i32(ref)
+    node = ghost(ref, "node", _NODE)
+    if node is None or not isa(node, "IRArith"):
+        return True
+    return And(_i32o(cval(node.left)), _i32o(cval(node.right)))
+
+
+extract_coord = Contract(
+    qualname=EL + "_try_extract_const_value",
+    params={"self": ty.TObj("ExpressionLowerer", only=("ExpressionLowerer",)), "value_ref": _VREF},
+    requires=[("constant operands are int32", lambda a: _operands_i32(a))],
+    ensures=[("an int exactly for constant trees, equal to the tree's S1 value; otherwise None", _extract_post)],
+    uses={"IRBuilder.get_operation": get_operation, "ExpressionLowerer._try_extract_const_value": rec_call,
+          "ConstantFolder.fold_binary_operation": _c11._fold_callee},
+    dynamic_types={"self": {"ir_builder": ty.TObj("IRBuilder", only=("IRBuilder",)), "parent": ty.TOpaque("parent"), "diagnostics": ty.TOpaque("diag")}},
+    returns=ty.TOpt(ty.Int), properties=("C09", "C11"), min_obligations=4, no_replay=True,
+)
+CONTRACTS += [extract_coord, get_operation, rec_call]
